@@ -84,28 +84,35 @@ theorem dest_exactly (src : List Item) (r : Run) (st : St) (k : String) :
     simp only [runRepaired, hk, find_todo src st k hk]
     cases src.find? (fun it => it.key == k) <;> rfl
 
-/-- a job whose command is killed by a signal is a failed run, even if it had already written its file: its record has
-a non-zero exit code, so its item is not stored (`postOf_isSome_iff`) and the job runs again (`invalid_cache_not_reused`). -/
-theorem killed_job_is_a_failed_run (r : Run) (j : String) (a s : Nat) (h : r.plan j = .killed s) (hs : 0 < s) :
-    (entOf r j a).code = -(s : Int) ∧ (entOf r j a).code ≠ 0 := by
-  have : (entOf r j a).code = -(s : Int) := by
-    unfold entOf
-    rw [h]
-    have : (-(s : Int)) ≠ 0 := by omega
-    simp [outcome, this]
-  exact ⟨this, by rw [this]; omega⟩
+/-- a job one of whose commands fails — by exit status or killed by a signal — is a failed run, whatever its later
+commands would do (a tolerant collect step that exits 0 and writes the return file included): its record has the first
+failing command's non-zero code, so its item is not stored (`postOf_isSome_iff`) and the job runs again
+(`invalid_cache_not_reused`). -/
+theorem failing_command_fails_job (r : Run) (j : String) (a : Nat) (p : Plan) (hp : p ∈ r.plan j)
+    (hc : (outcome p a).1 ≠ 0) : (entOf r j a).code ≠ 0 := by
+  have hne : (jobOutcome (r.plan j) a).1 ≠ 0 := fun h0 => hc ((jobOutcome_code_zero_iff _ a).mp h0 p hp)
+  unfold entOf
+  rcases ho : jobOutcome (r.plan j) a with ⟨c, w⟩
+  rw [ho] at hne
+  simp only at hne
+  simp [hne]
 
-theorem killed_item_not_stored (src : List Item) (r : Run) (st : St) (it : Item) (j : String) (s : Nat)
-    (hj : j ∈ jobNames it) (hex : j ∈ (runRepaired src r st).2) (h : r.plan j = .killed s) (hs : 0 < s) :
+theorem killed_job_is_a_failed_run (r : Run) (j : String) (a s : Nat) (h : Plan.killed s ∈ r.plan j) (hs : 0 < s) :
+    (entOf r j a).code ≠ 0 :=
+  failing_command_fails_job r j a _ h (by simp only [outcome]; omega)
+
+theorem failed_item_not_stored (src : List Item) (r : Run) (st : St) (it : Item) (j : String) (p : Plan)
+    (hj : j ∈ jobNames it) (hex : j ∈ (runRepaired src r st).2) (hp : p ∈ r.plan j)
+    (hc : (outcome p (st.attempts j + 1)).1 ≠ 0) :
     postOf .repaired (runRepaired src r st).1.cache r it = none := by
-  cases hp : postOf .repaired (runRepaired src r st).1.cache r it with
+  cases hpo : postOf .repaired (runRepaired src r st).1.cache r it with
   | none => rfl
   | some v =>
-    have := (postOf_isSome_iff (runRepaired src r st).1.cache r it).mp (by rw [hp]; rfl) j hj
-    obtain ⟨e, he, hc, _⟩ := this
+    have := (postOf_isSome_iff (runRepaired src r st).1.cache r it).mp (by rw [hpo]; rfl) j hj
+    obtain ⟨e, he, hc0, _⟩ := this
     rw [((executed_once src r st j).1 hex).2] at he
     cases he
-    exact absurd hc (killed_job_is_a_failed_run r j _ s h hs).2
+    exact absurd hc0 (failing_command_fails_job r j _ p hp hc)
 
 /-- "keys present only in the destination are left alone" (and so is every other existing entry) -/
 theorem dest_only_keys_untouched (src : List Item) (r : Run) (st : St) (k v : String) (h : st.dest k = some v) :
@@ -206,7 +213,7 @@ theorem wf_run (src : List Item) (r : Run) (st : St) (h : WF st) : WF (runRepair
   · rw [((executed_once src r st j).1 hex).2] at he
     cases he
     unfold entOf at hc ⊢
-    rcases ho : outcome (r.plan j) (st.attempts j + 1) with ⟨c, w⟩
+    rcases ho : jobOutcome (r.plan j) (st.attempts j + 1) with ⟨c, w⟩
     rw [ho] at hc
     cases w <;> by_cases hc0 : c = 0 <;> simp_all
   · rw [((executed_once src r st j).2 hex).2] at he
@@ -235,7 +242,7 @@ theorem executed_only_for_missing_history (src : List Item) (rs : List Run) (st 
       | some v => rw [dest_only_keys_untouched src r st _ v hk] at hd; cases hd
 
 /-- a run in which every job behaves is complete … -/
-def AllOk (r : Run) : Prop := ∀ j a, outcome (r.plan j) a = (0, true)
+def AllOk (r : Run) : Prop := ∀ j a, jobOutcome (r.plan j) a = (0, true)
 
 theorem complete_after_ok_run (src : List Item) (r : Run) (st : St) (hwf : WF st) (hok : AllOk r) (hs : r.strict = true) :
     ∀ it ∈ src, ((runRepaired src r st).1.dest it.key).isSome := by
@@ -351,11 +358,11 @@ theorem vectorised_executed (src : List Item) (r : Run) (st : St) (k : String) (
 /-! ## concrete histories (non-vacuity) and the pinned commit -/
 
 def demoSrc : List Item := [⟨"m0", none⟩, ⟨"m1", none⟩, ⟨"m2", none⟩, ⟨"e", some 2⟩]
-def demoPlan : String → Plan := fun j =>
-  if j = "m1" then .fail 3 else if j = "m2" then .okFrom 2 5 else if j = "e.1" then .omit else .ok
+def demoPlan : String → List Plan := fun j =>
+  if j = "m1" then [.fail 3, .ok] else if j = "m2" then [.okFrom 2 5] else if j = "e.1" then [.omit] else [.omit, .ok]
 def demoSt : St := { emptySt with dest := fun k => if k = "m0" then some "pre" else if k = "zz" then some "only" else none }
 def runA : Run := { tag := "A", plan := demoPlan }
-def runOk : Run := { tag := "A", plan := fun _ => .ok }
+def runOk : Run := { tag := "A", plan := fun _ => [.ok] }
 
 example : (runRepaired demoSrc runA demoSt).2 = ["m1", "m2", "e.0", "e.1"] ∧
     (runRepaired demoSrc runA (runRepaired demoSrc runA demoSt).1).2 = ["m1", "m2", "e.1"] ∧
@@ -367,9 +374,9 @@ example : (runRepaired demoSrc runA demoSt).2 = ["m1", "m2", "e.0", "e.1"] ∧
 
 example : AllOk runOk := fun _ _ => rfl
 
-example : (runs [⟨"m", none⟩] emptySt [{ tag := "A", plan := fun _ => .killed 9 }, { tag := "A", plan := fun _ => .killed 9 }]).2 = [["m"], ["m"]] ∧
-    (runs [⟨"m", none⟩] emptySt [{ tag := "A", plan := fun _ => .killed 9 }]).1.dest "m" = none ∧
-    ((runs [⟨"m", none⟩] emptySt [{ tag := "A", plan := fun _ => .killed 9 }]).1.cache "m").map (·.code) = some (-9) := by
+example : (runs [⟨"m", none⟩] emptySt [{ tag := "A", plan := fun _ => [.killed 9, .ok] }, { tag := "A", plan := fun _ => [.killed 9, .ok] }]).2 = [["m"], ["m"]] ∧
+    (runs [⟨"m", none⟩] emptySt [{ tag := "A", plan := fun _ => [.killed 9, .ok] }]).1.dest "m" = none ∧
+    ((runs [⟨"m", none⟩] emptySt [{ tag := "A", plan := fun _ => [.killed 9, .ok] }]).1.cache "m").map (·.code) = some (-9) := by
   decide
 
 /-- D35 (pinned commit): a key present only in the destination makes the call raise. -/
@@ -385,8 +392,8 @@ theorem vectorised_rerun_shipped_counterexample :
 
 /-- D37 (pinned commit): an item whose command wrote its file but exited 3 is stored in the destination. -/
 theorem failed_item_stored_shipped_counterexample :
-    ((runShipped [⟨"m", none⟩] [] { tag := "A", plan := fun _ => .failWrote 3 } emptySt).map (fun p => p.1.dest "m")) = some (some "A|m:A:1") ∧
-    (runRepaired [⟨"m", none⟩] { tag := "A", plan := fun _ => .failWrote 3 } emptySt).1.dest "m" = none := by
+    ((runShipped [⟨"m", none⟩] [] { tag := "A", plan := fun _ => [.failWrote 3] } emptySt).map (fun p => p.1.dest "m")) = some (some "A|m:A:1") ∧
+    (runRepaired [⟨"m", none⟩] { tag := "A", plan := fun _ => [.failWrote 3] } emptySt).1.dest "m" = none := by
   decide
 
 end Molli.Props.C18
